@@ -39,7 +39,7 @@ struct Trav { int task, ev; long inv, ret; std::vector<int> visits; bool complet
 struct Counters
 {
 	uint64_t linChecked = 0, linOps = 0, linNodes = 0, travChecked = 0, travVisits = 0, overlapRuns = 0, removeRaces = 0, insertBeforeRemoved = 0,
-		travSteppedRemoved = 0, drainRemovals = 0, nestedOps = 0;
+		travSteppedRemoved = 0, drainRemovals = 0, nestedOps = 0, linBudgetExhausted = 0, linSkippedTooLong = 0;
 	uint64_t perObj[OBJ_KINDS] = { 0, 0, 0, 0, 0, 0 };
 } counters;
 
@@ -290,7 +290,7 @@ struct Harness
 	bool search(uint32_t mask, const Model & m)
 	{
 		++counters.linNodes;
-		if(--linBudget < 0) return true; // budget exhausted: give up without verdict (counted separately, never an alarm)
+		if(--linBudget < 0) { if(linBudget == -1) ++counters.linBudgetExhausted; return true; } // budget exhausted: no verdict (counted, never an alarm)
 		const size_t n = lops.size();
 		if(mask == (n >= 32 ? 0xffffffffu : ((1u << n) - 1))) {
 			for(int e = 0; e < 3; ++e) if(m.lists[e] != finalObserved.lists[e]) return false;
@@ -456,6 +456,7 @@ struct Harness
 		// (3) linearizability of the adding / removing / querying calls with the final order
 		lops.clear();
 		for(size_t i = 0; i < hist.size(); ++i) lops.push_back(&hist[i]);
+		if(lops.size() > 24) ++counters.linSkippedTooLong;
 		if(lops.size() <= 24) {
 			deadEnds.clear();
 			linBudget = 400000;
@@ -641,7 +642,7 @@ void statsJson(std::string & out)
 	  << ",\"traversals_checked\":" << counters.travChecked << ",\"traversal_visits\":" << counters.travVisits
 	  << ",\"runs_with_overlap\":" << counters.overlapRuns << ",\"concurrent_removes_same_handle\":" << counters.removeRaces
 	  << ",\"insert_before_concurrently_removed\":" << counters.insertBeforeRemoved << ",\"drain_removals\":" << counters.drainRemovals
-	  << ",\"nested_ops_from_callbacks\":" << counters.nestedOps
+	  << ",\"nested_ops_from_callbacks\":" << counters.nestedOps << ",\"lin_search_budget_exhausted\":" << counters.linBudgetExhausted << ",\"lin_histories_too_long_skipped\":" << counters.linSkippedTooLong
 	  << ",\"mutex_contended\":" << probes().mutexContended << ",\"spin_contended\":" << probes().spinContended << "}"
 	  << ",\"per_object\":[" << counters.perObj[0] << "," << counters.perObj[1] << "," << counters.perObj[2] << "," << counters.perObj[3] << "," << counters.perObj[4] << "," << counters.perObj[5] << "]";
 	out += o.str();
